@@ -220,6 +220,28 @@ func (e *Engine) Prelude() string {
 	}
 	ok.WriteString("))\n")
 	sb.WriteString(ok.String())
+	// integer-keyed membership, skolemised: has_int D l <=> exists k. D[k] and k is an integer of any Go type with value l
+	{
+		var isInt, val strings.Builder
+		isInt.WriteString("(define-fun any_is_int ((a Any)) Bool (or false")
+		val.WriteString("(define-fun any_int_val ((a Any)) Int ")
+		n := 0
+		for _, c := range cons {
+			if b, ok := c.T.(*types.Basic); ok && b.Info()&types.IsInteger != 0 {
+				fmt.Fprintf(&isInt, " ((_ is %s) a)", c.Con)
+				fmt.Fprintf(&val, "(ite ((_ is %s) a) (%s a) ", c.Con, c.Sel)
+				n++
+			}
+		}
+		isInt.WriteString("))\n")
+		val.WriteString("0" + strings.Repeat(")", n) + ")\n")
+		sb.WriteString(isInt.String())
+		sb.WriteString(val.String())
+		sb.WriteString("(declare-fun has_int ((Array Any Bool) Int) Bool)\n")
+		sb.WriteString("(declare-fun int_witness ((Array Any Bool) Int) Any)\n")
+		sb.WriteString("(assert (forall ((D (Array Any Bool)) (k Any)) (! (=> (and (select D k) (any_is_int k)) (has_int D (any_int_val k))) :pattern ((select D k)))))\n")
+		sb.WriteString("(assert (forall ((D (Array Any Bool)) (l Int)) (! (=> (has_int D l) (and (select D (int_witness D l)) (any_is_int (int_witness D l)) (= (any_int_val (int_witness D l)) l))) :pattern ((has_int D l)))))\n")
+	}
 	// any_hashable
 	var hb strings.Builder
 	hb.WriteString("(define-fun any_hashable ((a Any)) Bool (and (=> ((_ is A_other) a) (other_hashable (other_tid a)))")
@@ -240,6 +262,9 @@ func (e *Engine) payloadInv(v Term, t types.Type, depth int) Term {
 	case *types.Basic:
 		if ut.Info()&types.IsInteger != 0 {
 			return InRange(v, t)
+		}
+		if ut.Info()&types.IsString != 0 {
+			return Le(App(SInt, "str_len", v), BigLit("281474976710656"))
 		}
 		return True
 	case *types.Pointer:
